@@ -605,14 +605,14 @@ func (C17) pure(tp *tape.Tape) core.Result {
 			}
 			sim.Feed([]byte(o.Out + "\n"))
 			in.Stdin = append(in.Stdin, []byte(o.Out+"\n")...)
-			if _, _, stop := step("gs = read()"); stop {
-				goto done
-			}
 			// whether read() keeps the line break is not documented: strip it only if it is there
 			if _, _, stop := step("chomp = (s) -> {\nn = #s\nif n == 0 {\nreturn s\n}\nk = n - 1\nc = s[k]\nif c == \"\\n\" {\ns[0:k]\n} else {\ns\n}\n}"); stop {
 				goto done
 			}
-			o3, _, stop := step("write(aton(chomp(gs)) == gv)")
+			if _, _, stop := step("gs = chomp(read())"); stop {
+				goto done
+			}
+			o3, _, stop := step("write(aton(gs) == gv)")
 			if stop {
 				goto done
 			}
